@@ -158,9 +158,10 @@ PROPS = {
             {"kind": "verus", "unit": "idx"},
             {"kind": "verus", "unit": "sequpd"},
             {"kind": "verus", "unit": "snth"},
+            {"kind": "verus", "unit": "seqchain"},
         ],
         "unreached": [
-            "XSequence::chain (that it establishes the cumulative-length invariant V-seq assumes for the Chain arm of get), len on Chain/Map/Zip (macros over dyn Any downcasts, Cow, iterator chains: outside Verus' dialect; BigInt promotion closure makes them intractable for CBMC)",
+            "of XSequence::chain the emptiness shortcuts and downcasts before the extracted statements, and that `len0` is the sum of the part lengths (V-seqchain proves the flattening, the shifted midpoints and that they stay sorted); len on Chain/Map/Zip (macros over dyn Any downcasts, Cow, iterator chains: outside Verus' dialect; BigInt promotion closure makes them intractable for CBMC)",
             "of push / rpush / insert / pop / set / swap the prefix before the extracted statements (argument evaluation, downcast, the finiteness test and the allocation pre-flight); every other native builtin body; Map/Zip representations (call the evaluator); include.rs",
         ],
         "assumptions": ["LazyBigint operations by the contracts unit V-int proves (canonical representation of the mathematical result)",
@@ -173,9 +174,10 @@ PROPS = {
             {"kind": "verus", "unit": "gstep"},
             {"kind": "verus", "unit": "gcons"},
             {"kind": "verus", "unit": "gnth"},
+            {"kind": "verus", "unit": "genchain"},
         ],
         "unreached": [
-            "the adaptors SuccessorsUntil, Zip, Chain, Repeat, WithCount, Group, Windows, Product of XGenerator::_iter; that std's filter_map / map_while / map / scan apply the step closure to every element in order (documented meaning, trusted); laziness / look-ahead, re-iterability, chain flattening, the consumers join / the reducing ones (to_array, len, last, get, nth are under contract from the statement after the downcast), and the adaptors written in the xray language",
+            "the adaptors SuccessorsUntil, Zip, Chain, Repeat, WithCount, Group, Windows, Product of XGenerator::_iter; that std's filter_map / map_while / map / scan apply the step closure to every element in order (documented meaning, trusted); laziness / look-ahead, re-iterability, the Chain arm of _iter (flat_map over the parts; XGenerator::chain's flattening is under contract), the consumers join / the reducing ones (to_array, len, last, get, nth are under contract from the statement after the downcast), and the adaptors written in the xray language",
         ],
         "assumptions": ["V-gstep: the evaluator as a deterministic function `apply`; predicates answer a Bool (type fact, C01); std's filter_map / map_while / map / scan apply the closure to each element in order",
                         "std::iter::Iterator::{skip, take} by their documented meaning on a sequence view (finite-prefix model of a stream)",
